@@ -323,14 +323,15 @@ def _split(fn, guard):
         raise Inconclusive(f"{fn.qual}: `if _USE_CYTHON:` is not a top-level statement of the function")
     i = body.index(guard)
     pre = [s for s in body[:i] if not (isinstance(s, ast.Expr) and isinstance(s.value, ast.Constant))]
-    return pre, list(guard.body), body[i + 1:]
+    # `if _USE_CYTHON: fast ... else: slow ...` -- the else branch belongs to the fallback side only
+    return pre, list(guard.body), list(guard.orelse) + body[i + 1:], body[i + 1:]
 
 
 def _tables(fn, guard, call, pf, lem):
-    pre, fast_block, rest = _split(fn, guard)
+    pre, fast_block, rest, after = _split(fn, guard)
     env0 = {}
     sym_fast = P.Sym(lem, callee=(pf, pf.name), call_pred=lambda c: isinstance(c.func, ast.Name) and c.func.id == pf.name)
-    fast_paths = sym_fast.run(pre + fast_block + rest, env0)
+    fast_paths = sym_fast.run(pre + fast_block + after, env0)
     sym_fall = P.Sym(lem)
     fall_paths = sym_fall.run(pre + rest, env0)
     return sym_fast.table(fast_paths), sym_fall.table(fall_paths)
